@@ -23,3 +23,30 @@ Theorem c01_status_after_resume : forall (a : assets) (s : session) (r : resume)
   s_status (session_ x') = SWaiting \/ s_status (session_ x') = SCompleted \/ s_status (session_ x') = SFailed.
 Proof. exact resume_settled. Qed.
 Print Assumptions c01_status_after_resume.
+
+(* Clauses 2 (as far as it concerns the runs' statuses and ancestry) and 4, for every history:
+   [reachable] = started by any trigger on any flows, then resumed any number of times with any
+   resumes, each call against ANY asset store (so also stores that changed between sprints).
+   [status_wellformed] (proofs/EngineInv.v) says, for the session after the last call:
+     - it is waiting, completed or failed;
+     - it is waiting exactly when exactly one run is waiting, and then every active run is an ancestor
+       of that run;
+     - otherwise no run is active or waiting;
+     - exited_on is set exactly for completed, failed and expired runs;
+     - (presupposed by the statement) parents precede their children and nothing is left pushed.
+   Not covered by this theorem (see the level note): "the waiting run sits on a node whose router has a
+   wait", the path-walk clause and the event clause. *)
+From Verif Require Import proofs.EngineInv.
+
+Theorem c01_status_wellformed : forall s : session, reachable s -> status_wellformed s.
+Proof. exact reachable_wellformed. Qed.
+Print Assumptions c01_status_wellformed.
+
+(* the invariant behind it is inductive for ANY session that satisfies it (not only reachable ones),
+   e.g. a session that was written to storage and read back *)
+Theorem c01_invariant_preserved : forall (a : assets) (s : session) (r : resume) (tmo : text) (x' : st),
+  post_inv s -> resume_session a s r tmo = Resumed (ROk x') -> post_inv (session_ x') /\ status_wellformed (session_ x').
+Proof.
+  intros a s r tmo x' H E. destruct (resume_post a s r tmo x' H E) as [P _]. split; [exact P|apply post_inv_wellformed; exact P].
+Qed.
+Print Assumptions c01_invariant_preserved.
